@@ -124,7 +124,8 @@ P = {
   "Lean 4 theorems on the model of src/log.c: after any reachable history of (re)loads the destinations a message of facility f and severity s "
   "reaches are exactly those the current logs section routes (f, s) to, as a multiset, independent of earlier sections (C18, C18_history, "
   "C18_multiset; C18_reload states it for every reachable live state of the config+log model, whatever hooks fired during the merge), and every "
-  "record written is the specification's line for that facility, severity and text and goes to a routed destination (C18_lines). The real log.c is loaded with generated sections (ranges, comma lists, '*', case variants, file: and std: destinations) and its "
+  "record written is the specification's line for that facility, severity and text and goes to a routed destination (C18_lines). The same judge also runs on the real program "
+  "(main.c's SIGUSR1 reload handler, module.c) with messages injected by a loadable module, over reload histories that include refused files. The real log.c is loaded with generated sections (ranges, comma lists, '*', case variants, file: and std: destinations) and its "
   "output files are compared with the model; file-system effects are the runtime facet.",
   "Lean 4 proofs on the log routing model + Spec judge + correspondence on written files"),
  "C19": ("set", True,
